@@ -1,6 +1,8 @@
 package eval
 
 import (
+	"math"
+
 	"grol.io/grol/object"
 )
 
@@ -18,6 +20,12 @@ type CacheValue struct {
 
 type Cache map[CacheKey]CacheValue
 
+// -0.0 and 0.0 are the same map key yet print differently: don't memoize calls with a negative zero argument.
+func isNegativeZero(v object.Object) bool {
+	f, ok := v.(object.Float)
+	return ok && f.Value == 0 && math.Signbit(f.Value)
+}
+
 func NewCache() Cache {
 	return make(Cache)
 }
@@ -29,7 +37,7 @@ func (c Cache) Get(fn string, args []object.Object) (object.Object, []byte, bool
 	key := CacheKey{Fn: fn}
 	for i, v := range args {
 		// Can't hash functions, arrays, maps arguments (yet).
-		if !object.Hashable(v) {
+		if !object.Hashable(v) || isNegativeZero(v) {
 			return nil, nil, false
 		}
 		key.Args[i] = v
@@ -45,7 +53,7 @@ func (c Cache) Set(fn string, args []object.Object, result object.Object, output
 	key := CacheKey{Fn: fn}
 	for i, v := range args {
 		// Can't hash functions arguments (yet).
-		if !object.Hashable(v) {
+		if !object.Hashable(v) || isNegativeZero(v) {
 			return
 		}
 		key.Args[i] = v
